@@ -35,7 +35,7 @@ def scratch_dir(prefix='lomond-verif-'):
 
 
 def run(module, cfg_text, extra_modules=None, workers=None, env=None, timeout=3600, simulate=None,
-        depth=None, seed=None, keep=False, coverage=False, dfid=None):
+        depth=None, seed=None, keep=False, coverage=False, dfid=None, heap='6g'):
     """Run TLC on `module` (a name in spec/ or a (name, text) pair) with the given cfg text."""
     d = scratch_dir()
     res = TLCResult()
@@ -54,7 +54,7 @@ def run(module, cfg_text, extra_modules=None, workers=None, env=None, timeout=36
         with open(os.path.join(d, module + '.cfg'), 'w') as fh:
             fh.write(cfg_text)
         workers = workers or min(16, os.cpu_count() or 4)
-        cmd = ['java', '-XX:+UseParallelGC', '-Xmx6g', '-Xss256m', '-cp', JAR + ':' + DEPS, 'tlc2.TLC', '-workers', str(workers),
+        cmd = ['java', '-XX:+UseParallelGC', '-Xmx' + heap, '-Xss256m', '-cp', JAR + ':' + DEPS, 'tlc2.TLC', '-workers', str(workers),
                '-metadir', os.path.join(d, 'meta'), '-noGenerateSpecTE', '-config', module + '.cfg']
         if simulate:
             cmd += ['-simulate', simulate]
